@@ -98,6 +98,62 @@ pub fn tier(tier: &str, only_maintenance: bool) -> Tier {
             }
         }
     }
+    // co-located family (all tiers): L1 and L2 are the same place (0 s / 0 m apart) under every shunting model x <=2 trips
+    // (a dead-head of no duration beats the minimal shunting time of staying put)
+    {
+        let mut seen: std::collections::HashSet<Inst> = insts.iter().cloned().collect();
+        for shunt in 0..DIMS[D_SHUNT].1 {
+            let mut cfg = BASE0;
+            cfg[D_DH] = 5;
+            cfg[D_SHUNT] = shunt;
+            for trips in trip_multisets(&catalogue(&cfg), 2) {
+                let i = Inst { cfg, trips };
+                if seen.insert(i.clone()) {
+                    insts.push(i);
+                }
+            }
+        }
+    }
+    // zero-allowance family (all tiers): slots given but parameters.maintenance absent (maximal distance 0: every
+    // kilometre counts as violation, the local search drives every vehicle through the slots) under every
+    // dead-head matrix x <=2 trips
+    {
+        let mut seen: std::collections::HashSet<Inst> = insts.iter().cloned().collect();
+        for dh in 0..DIMS[D_DH].1 {
+            let mut cfg = BASE0;
+            cfg[D_MAINT] = 5;
+            cfg[D_DH] = dh;
+            for trips in trip_multisets(&catalogue(&cfg), 2) {
+                let i = Inst { cfg, trips };
+                if seen.insert(i.clone()) {
+                    insts.push(i);
+                }
+            }
+        }
+    }
+    // tight-detour family (all tiers): minimal shunting 900 s, dead-heads of 60 s, a five-minute slot at L0 between
+    // an arrival at L1 (09:00) and a departure there (09:10) - reachable only through the detour - plus a later slot;
+    // every maximal distance x <=2 trips, and 3 trips without passengers
+    {
+        let mut seen: std::collections::HashSet<Inst> = insts.iter().cloned().collect();
+        for maxdist in 0..DIMS[D_MAXDIST].1 {
+            let mut cfg = BASE0;
+            cfg[D_SHUNT] = 4;
+            cfg[D_DH] = 4;
+            cfg[D_MAINT] = 8;
+            cfg[D_MAXDIST] = maxdist;
+            let full = catalogue(&cfg);
+            let mut sets = trip_multisets(&full, 2);
+            let none: Vec<Trip> = full.iter().copied().filter(|t| t.dem == 0).collect();
+            sets.extend(trip_multisets(&none, 3).into_iter().filter(|m| m.len() == 3));
+            for trips in sets {
+                let i = Inst { cfg, trips };
+                if seen.insert(i.clone()) {
+                    insts.push(i);
+                }
+            }
+        }
+    }
     // rich family (all tiers): <=1 deviation from the rich base (two types, two-segment routes limited on the
     // first segment only, dead-head shunting, a depot with mixed per-type limits, two co-located locations,
     // a two-track slot) x <=2 trips; quick: demand levels {0, 2 vehicles}; thorough: all four levels, plus
@@ -120,7 +176,7 @@ pub fn tier(tier: &str, only_maintenance: bool) -> Tier {
             }
         }
     }
-    let describe = format!("{}; plus the deep family: both maintenance bases x 5 cost models x <=3 trips with demand in {{0 passengers, 2 vehicles}}; plus the track-hungry family: one slot x 4 tracks, maximalDistance 10 km, every depot model x <=2 trips; plus the rich family: <=1 deviation from the rich base (types A+B, two-segment routes limited on the first segment only, dead-head shunting 300 s, one depot of total 2 with mixed per-type limits, L1 and L2 co-located, two-track slot with binding maximalDistance) x <=2 trips ({})", describe, if tier == "thorough" { "all demand levels, plus 3 trips needing two vehicles each" } else { "demand in {0 passengers, 2 vehicles}" });
+    let describe = format!("{}; plus the deep family: both maintenance bases x 5 cost models x <=3 trips with demand in {{0 passengers, 2 vehicles}}; plus the co-located family: L1/L2 0 s apart x every shunting model x <=2 trips; plus the zero-allowance family: a slot with parameters.maintenance absent x every dead-head matrix x <=2 trips; plus the tight-detour family: shunting (900,0), 60 s dead-heads, a five-minute slot reachable only by a detour + a later slot, every maximalDistance x (<=2 trips U 3 trips without passengers); plus the track-hungry family: one slot x 4 tracks, maximalDistance 10 km, every depot model x <=2 trips; plus the rich family: <=1 deviation from the rich base (types A+B, two-segment routes limited on the first segment only, dead-head shunting 300 s, one depot of total 2 with mixed per-type limits, L1 and L2 co-located, two-track slot with binding maximalDistance) x <=2 trips ({})", describe, if tier == "thorough" { "all demand levels, plus 3 trips needing two vehicles each" } else { "demand in {0 passengers, 2 vehicles}" });
     if only_maintenance {
         insts.retain(|i| i.has_maintenance());
     }
@@ -366,6 +422,27 @@ fn outcome_fingerprint(o: &Outcome, prop: &str) -> String {
 /// Run the sweep for one property and one binary; returns the aggregated counters merged into `report`.
 pub fn run(spec: &SweepSpec, tier_name: &str, report: &mut Report) {
     let mut t = if spec.kind == "load" { tier_rich(tier_name) } else { tier(tier_name, spec.only_maintenance) };
+    if spec.prop == "C06" {
+        // C06 only: "unreachable" markers in the dead-head matrix (durations far above the planning horizon, which
+        // the loader replaces by the planning duration).  The other oracles compare with the documented timing
+        // rule on the values as given, so these instances are kept out of their sweeps.
+        let mut n = 0;
+        for shunt in [0u8, 1] {
+            for maint in [0u8, 2] {
+                let mut cfg = BASE0;
+                cfg[D_DH] = 6;
+                cfg[D_DEPOTS] = 11;
+                cfg[D_SHUNT] = shunt;
+                cfg[D_MAINT] = maint;
+                cfg[D_MAXDIST] = if maint == 0 { 0 } else { 1 };
+                for trips in trip_multisets(&catalogue(&cfg), 2) {
+                    t.insts.push(Inst { cfg, trips });
+                    n += 1;
+                }
+            }
+        }
+        t.describe = format!("{}; plus (this check only) the unreachable-marker family: L2 connected by dead-head durations of 99 999 999 999 s (four entries above the planning horizon) but only 2 km away, one depot of capacity 1 at L0 and a depot at L2, shunting {{(0,0),(300,0)}} x maintenance {{none, two-track slot}} x <=2 trips ({} instances)", t.describe, n);
+    }
     if let Some(n) = spec.max_seeds {
         t.seeds.truncate(n);
     }
